@@ -123,6 +123,12 @@ def gen_c15(rng):
         for k in rng.sample(resident, min(len(resident), rng.choice([1, 2, 3]))):
             ops.append(f"keep k={k}")
         kept = True
+    if not kept and rng.random() < 0.15:
+        # drop without close: the last handle goes away, the cache closes itself in the background (and flushes)
+        ops += ["dropcache", "sleep ms=700", "reopen"]
+        for k in range(6):
+            ops.append(f"get k={k}")
+        return cfg + "\n" + "\n".join(ops) + "\n"
     ops.append("close")
     if kept and rng.random() < 0.5:
         ops.append("unkeep"); kept = False
@@ -295,7 +301,8 @@ def gen_c03(rng, n_faults, exhaustive_pages=None):
 def gen_c03_payload(rng, n):
     """every entry live, layout known (one batch per insert, all in block 0 behind the 4 KiB blob index; an entry takes
     36 bytes of header + 8 of value length + the value + 8 of key, page aligned): one bit of one entry's payload -
-    value length, value bytes or key bytes - is flipped on the closed device; small (single-page) and large entries"""
+    value length, value bytes or key bytes - or of its header (the length fields, which no checksum covers, hash, sequence,
+    checksum, tag) is flipped on the closed device; small (single-page) and large entries"""
     out = []
     for _ in range(n):
         tomb = rng.choice([0, 1])
@@ -308,10 +315,13 @@ def gen_c03_payload(rng, n):
         ops.append("close")
         for _ in range(rng.choice([1, 1, 2])):
             j = rng.randrange(5)
-            where = rng.choice(["value", "value", "value", "last", "first", "key", "vlen"])
+            where = rng.choice(["value", "value", "value", "last", "first", "key", "vlen", "hdr_klen", "hdr_vlen", "hdr_vlen", "hdr_other"])
             lo = offs[j] + 36
+            # the 36-byte header: key length (4 bytes), value length (4), hash (8), sequence (8), checksum (8), tag + magic (4)
             tgt = {"value": lo + 8 + rng.randrange(sizes[j]), "last": lo + 8 + sizes[j] - 1, "first": lo + 8,
-                   "key": lo + 8 + sizes[j] + rng.randrange(8), "vlen": lo + rng.randrange(8)}[where]
+                   "key": lo + 8 + sizes[j] + rng.randrange(8), "vlen": lo + rng.randrange(8),
+                   "hdr_klen": offs[j] + rng.randrange(4), "hdr_vlen": offs[j] + 4 + rng.randrange(4),
+                   "hdr_other": offs[j] + 8 + rng.randrange(28)}[where]
             ops.append(f"fault part={tomb} page={tgt // 4096} kind=flip:{(tgt % 4096) * 8 + rng.randrange(8)}")
         ops += ["reopen", "probe"] + [f"get k={k}" for k in range(5)]
         out.append(cfg + "\n" + "\n".join(ops) + "\n")
